@@ -3,7 +3,8 @@
 import json,os,re,glob,subprocess,sys
 r=sys.argv[1]
 EXTRA=("This time the change should be one of the harder kinds: (a) TWO cooperating edits at different sites that each look harmless alone (e.g. a producer and a consumer that now disagree about a convention, a cache plus a missing invalidation, an index shifted in one place and compensated wrongly in another), or (b) something that only manifests after a multi-step sequence of calls / a particular combination of command-line flags / a particular interleaving of goroutines, or (c) a corner of the input space that is easy to overlook. "
- "Assume the harness you are testing enumerates SMALL grammars and SHORT inputs exhaustively and also tries a menu of unusual characters, long lexemes, deep nesting, big example grammars, reused objects and all flag combinations: prefer a change whose manifestation depends on a combination or a size that such an enumeration is unlikely to contain (a number crossing a threshold, a rarely combined pair of grammar features, a particular order of declarations, a name or literal with a particular relationship to another one, state that survives between calls or between parts of one run), while still being something a real user could hit.")
+ "Assume the harness you are testing enumerates SMALL grammars and SHORT inputs exhaustively and also tries a menu of unusual characters, long lexemes, deep nesting, big example grammars, reused objects and all flag combinations: prefer a change whose manifestation depends on a combination or a size that such an enumeration is unlikely to contain (a number crossing a threshold, a rarely combined pair of grammar features, a particular order of declarations, a name or literal with a particular relationship to another one, state that survives between calls or between parts of one run), while still being something a real user could hit. "
+ "Finally: if, while exploring, you notice that the UNCHANGED tree already violates the property for some input (or crashes, or emits code that does not compile), do not use that as your seed, but describe it precisely (grammar, input, command, observed output) in notes.md under a heading 'Side observations on the unchanged tree'.")
 props={}
 for l in open('/verif/properties.jsonl'):
     p=json.loads(l); props[p['id']]=p
